@@ -40,6 +40,24 @@ type bwVariant struct {
 	threads  int
 	schedule []int // job (record) -> thread
 	meta     bool
+	stateMap []int // state -> emission (default: the swap {1, 0}; {0, 0} ties both states to one emission)
+}
+
+func (v bwVariant) smap() []int {
+	if v.stateMap != nil {
+		return v.stateMap
+	}
+	return bwStateMap
+}
+
+func (v bwVariant) nEmissions() int {
+	n := 0
+	for _, c := range v.smap() {
+		if c+1 > n {
+			n = c + 1
+		}
+	}
+	return n
 }
 
 type bwResult struct {
@@ -61,7 +79,7 @@ func nilErrClosure() *vn.Closure {
 	return &vn.Closure{Lit: e.(*ast.FuncLit)}
 }
 
-func bwHmm(p *packages.Package, tag string) *vn.StructVal {
+func bwHmm(p *packages.Package, tag string, v bwVariant) *vn.StructVal {
 	loc := func(s string) *vn.Loc { return &vn.Loc{Name: "tmp", Val: symf(s), Consistent: true} }
 	var pis []*sym.Term
 	for i := 0; i < bwM; i++ {
@@ -71,11 +89,11 @@ func bwHmm(p *packages.Package, tag string) *vn.StructVal {
 	tm := &vn.StructVal{T: namedType(p, "HmmTransitionMatrix"), Fields: map[string]vn.Value{
 		"Matrix": vn.NewLocalMat(bwM, bwM, func(i, j int) *sym.Term { return symf("%str_%d_%d", tag, i, j) }), "t1": loc("stale_mt1"), "t2": loc("stale_mt2")}}
 	sm := &vn.SliceVal{Len: sym.Int(bwM), Cells: map[string]*sym.Term{}}
-	for i, c := range bwStateMap {
+	for i, c := range v.smap() {
 		sm.Cells[sym.Int(int64(i)).String()] = sym.Int(int64(c))
 	}
 	return &vn.StructVal{T: namedType(p, "Hmm"), Fields: map[string]vn.Value{"Pi": pv, "Tr": tm, "Tf": tm, "StateMap": sm,
-		"M": sym.Int(bwM), "N": sym.Int(2), "startStates": vn.NilVal{}, "finalStates": vn.NilVal{}}}
+		"M": sym.Int(bwM), "N": sym.Int(int64(v.nEmissions())), "startStates": vn.NilVal{}, "finalStates": vn.NilVal{}}}
 }
 
 func runBaumWelch(p *packages.Package, d *declIndex, v bwVariant) (*bwResult, string) {
@@ -87,8 +105,8 @@ func runBaumWelch(p *packages.Package, d *declIndex, v bwVariant) (*bwResult, st
 	if tTmp == nil || namedType(p, "HmmProbabilityVector") == nil || namedType(p, "HmmTransitionMatrix") == nil {
 		return nil, "types BaumWelchTmp/HmmProbabilityVector/HmmTransitionMatrix not found"
 	}
-	hmm1 := bwHmm(p, "stale_l")
-	hmm2 := bwHmm(p, "l")
+	hmm1 := bwHmm(p, "stale_l", v)
+	hmm2 := bwHmm(p, "l", v)
 	nMapped := bwR * v.n
 	staleVec := func(n int, tag string) *vn.LocalVec {
 		var ts []*sym.Term
@@ -100,7 +118,7 @@ func runBaumWelch(p *packages.Package, d *declIndex, v bwVariant) (*bwResult, st
 	var tmp vn.ListVal
 	for t := 0; t < v.threads; t++ {
 		g := &vn.ListVal{}
-		for c := 0; c < 2; c++ {
+		for c := 0; c < v.nEmissions(); c++ {
 			g.Elems = append(g.Elems, staleVec(nMapped, fmt.Sprintf("g%d_%d", t, c)))
 		}
 		tmp.Elems = append(tmp.Elems, &vn.StructVal{T: tTmp, Fields: map[string]vn.Value{
@@ -227,7 +245,7 @@ func runBaumWelch(p *packages.Package, d *declIndex, v bwVariant) (*bwResult, st
 		res.tr = append(res.tr, row)
 	}
 	g0 := tmp.Elems[0].(*vn.StructVal).Fields["gamma"].(*vn.ListVal)
-	for c := 0; c < 2; c++ {
+	for c := 0; c < v.nEmissions(); c++ {
 		var row []*sym.Term
 		gv := g0.Elems[c].(*vn.LocalVec)
 		for l := 0; l < nMapped; l++ {
@@ -251,9 +269,9 @@ func bwReference(v bwVariant) *bwResult {
 				if keep != nil && !keep(x) {
 					return
 				}
-				e := sym.Add(symf("lpi_%d", x[0]), symf("le%d_%d_%d", r, bwStateMap[x[0]], 0))
+				e := sym.Add(symf("lpi_%d", x[0]), symf("le%d_%d_%d", r, v.smap()[x[0]], 0))
 				for t := 1; t < v.n; t++ {
-					e = sym.Add(e, sym.Add(symf("ltr_%d_%d", x[t-1], x[t]), symf("le%d_%d_%d", r, bwStateMap[x[t]], t)))
+					e = sym.Add(e, sym.Add(symf("ltr_%d_%d", x[t-1], x[t]), symf("le%d_%d_%d", r, v.smap()[x[t]], t)))
 				}
 				total = sym.Add(total, sym.Fn("exp", e))
 				return
@@ -306,12 +324,12 @@ func bwReference(v bwVariant) *bwResult {
 		res.tr = append(res.tr, row)
 	}
 	// gamma
-	for c := 0; c < 2; c++ {
+	for c := 0; c < v.nEmissions(); c++ {
 		row := make([]*sym.Term, nMapped)
 		for r := 0; r < bwR; r++ {
 			for k := 0; k < v.n; k++ {
 				cc, kk := c, k
-				g := sym.Fn("log", sym.Div(sumOver(r, func(x []int) bool { return bwStateMap[x[kk]] == cc }), Z[r]))
+				g := sym.Fn("log", sym.Div(sumOver(r, func(x []int) bool { return v.smap()[x[kk]] == cc }), Z[r]))
 				l := r*v.n + k
 				if v.meta {
 					g = sym.Add(g, symf("meta_%d", l))
@@ -330,6 +348,7 @@ func bwVariants(thorough bool) []bwVariant {
 		{name: "observation weights (nested), one thread", n: 2, threads: 1, schedule: []int{0, 0}, meta: true},
 		{name: "two threads, both records on thread 1", n: 2, threads: 2, schedule: []int{1, 1}},
 		{name: "two threads, one record each", n: 2, threads: 2, schedule: []int{1, 0}},
+		{name: "both states tied to one emission, one thread", n: 2, threads: 1, schedule: []int{0, 0}, stateMap: []int{0, 0}},
 	}
 	if thorough {
 		// (three positions make the normal forms of the re-estimated transitions too large to compare in reasonable time)
